@@ -43,7 +43,12 @@ type C14Op struct {
 	// config: the refresh waits with the client's answer in hand until the next request stands between
 	// computing and remembering its document's posting templates; that request then waits for the refresh
 	Rendezvous bool `json:"rendezvous,omitempty"`
-	AtEnd      bool `json:"at_end,omitempty"` // request: on the last line of the document's current text (the blank line after its last header)
+	// config: the refresh waits inside setSettings (old trees outdated, workspace not yet rebuilt) until
+	// the next request stands between computing and remembering its templates; the request (WaitBumped)
+	// is not sent before the refresh stands there
+	RendezvousBumped bool `json:"rendezvous_bumped,omitempty"`
+	WaitBumped       bool `json:"wait_bumped,omitempty"`
+	AtEnd            bool `json:"at_end,omitempty"` // request: on the last line of the document's current text (the blank line after its last header)
 }
 
 type C14Case struct {
@@ -70,6 +75,8 @@ type c14Hooks struct {
 	armed    map[uint64]int  // analysis goroutines that will be held at a point inside include loading
 	held     []chan struct{} // analyses waiting at a hook point
 	meet     chan struct{}   // non-nil: a refresh waits at config.answer for a request to reach templates.computed
+	meet2    chan struct{}   // non-nil: a refresh waits at config.bumped for a request to reach templates.computed
+	atBumped bool            // a refresh stands at config.bumped
 }
 
 // goid returns the id of the calling goroutine (from the header of its stack trace).
@@ -177,7 +184,26 @@ func (h *c14Hooks) handler(name string, args ...string) {
 			}
 			return
 		}
+	case "config.bumped":
+		if ch := h.meet2; h.enabled && ch != nil {
+			h.atBumped = true
+			h.mu.Unlock()
+			select {
+			case <-ch:
+			case <-time.After(2 * time.Second):
+			}
+			h.mu.Lock()
+			h.atBumped = false
+			h.mu.Unlock()
+			return
+		}
 	case "templates.computed":
+		if ch := h.meet2; h.enabled && ch != nil {
+			h.meet2 = nil
+			h.mu.Unlock()
+			close(ch)
+			return
+		}
 		if ch := h.meet; h.enabled && ch != nil {
 			h.meet = nil
 			target := h.cfgStart
@@ -208,7 +234,7 @@ func (h *c14Hooks) handler(name string, args ...string) {
 func (h *c14Hooks) reset(delays []int, enabled bool) {
 	h.mu.Lock()
 	h.delays, h.next, h.cfgStart, h.cfgDone, h.inflight, h.enabled = delays, 0, 0, 0, 0, enabled
-	h.holdWant, h.holdAt, h.armed, h.held, h.meet = map[string]int{}, map[string]int{}, map[uint64]int{}, nil, nil
+	h.holdWant, h.holdAt, h.armed, h.held, h.meet, h.meet2, h.atBumped = map[string]int{}, map[string]int{}, map[uint64]int{}, nil, nil, nil, false
 	h.mu.Unlock()
 }
 
@@ -412,6 +438,11 @@ func c14Execute(c *C14Case, sequential bool) (*c14Run, []ev.Discrepancy) {
 						c14h.meet = make(chan struct{})
 						c14h.mu.Unlock()
 					}
+					if op.RendezvousBumped && !sequential {
+						c14h.mu.Lock()
+						c14h.meet2 = make(chan struct{})
+						c14h.mu.Unlock()
+					}
 					h.C.SetConfig(cfg)
 					_ = h.ChangeConfiguration()
 					cfgCalls++
@@ -419,6 +450,17 @@ func c14Execute(c *C14Case, sequential bool) (*c14Run, []ev.Discrepancy) {
 					cfgDone, inflight := c14h.snapshot()
 					if inflight > 0 || busyBefore {
 						run.overlap++
+					}
+					if op.WaitBumped && !sequential {
+						for deadline := time.Now().Add(2 * time.Second); time.Now().Before(deadline); {
+							c14h.mu.Lock()
+							there := c14h.atBumped || c14h.meet2 == nil
+							c14h.mu.Unlock()
+							if there {
+								break
+							}
+							time.Sleep(20 * time.Microsecond)
+						}
 					}
 					var aerr error
 					pos := op.Pos
@@ -766,7 +808,13 @@ func genC14(t *rapid.T, p *gen.Profile) *C14Case {
 		if len(edges) > 0 {
 			ed := rapid.SampledFrom(edges).Draw(t, "tpedge")
 			c.Pats = append(c.Pats, "pattern:templates-remembered-across-a-limits-change")
-			if rapid.IntRange(0, 2).Draw(t, "tpnoroot") != 0 {
+			// the request meets the refresh before setSettings, or inside it (then what it collects comes
+			// from the workspace, which is rebuilt last)
+			inside := rapid.Bool().Draw(t, "tpinside")
+			if inside {
+				c.Root = true
+				c.Pats = append(c.Pats, "pattern:request-inside-setSettings")
+			} else if rapid.IntRange(0, 2).Draw(t, "tpnoroot") != 0 {
 				c.Root = false
 			}
 			header := func() m.Entry {
@@ -797,8 +845,8 @@ func genC14(t *rapid.T, p *gen.Profile) *C14Case {
 				C14Op{Op: "change", Doc: ed.from, Alt: rapid.IntRange(0, 2).Draw(t, "tpalt"), Wait: 2},
 				C14Op{Op: "request", Doc: ed.from, Kind: "inlineCompletion", AtEnd: true, Wait: 2}, // the template is there
 				C14Op{Op: "change", Doc: ed.from, Alt: rapid.IntRange(0, 2).Draw(t, "tpalt2"), Wait: 2},
-				C14Op{Op: "config", Doc: ed.from, Config: map[string]any{"limits": map[string]any{"maxFileSizeBytes": float64(dmax + rapid.IntRange(0, 8).Draw(t, "tpmargin"))}}, Rendezvous: true},
-				C14Op{Op: "request", Doc: ed.from, Kind: "inlineCompletion", AtEnd: true, Wait: 2},
+				C14Op{Op: "config", Doc: ed.from, Config: map[string]any{"limits": map[string]any{"maxFileSizeBytes": float64(dmax + rapid.IntRange(0, 8).Draw(t, "tpmargin"))}}, Rendezvous: !inside, RendezvousBumped: inside},
+				C14Op{Op: "request", Doc: ed.from, Kind: "inlineCompletion", AtEnd: true, Wait: 2, WaitBumped: inside},
 				C14Op{Op: "request", Doc: ed.from, Kind: "inlineCompletion", AtEnd: true, Wait: 2})
 		}
 	}
